@@ -44,3 +44,5 @@ import PvProofs.C19Csf
 #print axioms PvProofs.C19Gen.bitLen_gt_iff
 #print axioms PvProofs.C19Csf.commitmentFee_okB
 #print axioms PvProofs.C19Csf.commitmentFee_succeeds_iff
+#print axioms PvProofs.C19Gen.gen_exchangeSplit_body
+#print axioms PvProofs.C19Gen.code_exchangeSplit_is_ceil
